@@ -135,3 +135,27 @@ def h_ref_step(env, sym, k, U, n, zero_sites=()):
         U[s, :] = 0.0
         U[:, s] = 0.0
     return refs.dense_rydberg(T, om, de, ph, U, n)
+
+
+def sv_stub_config(**kw):
+    """duck-typed SVConfig carrying every option the real one has.  `dt` is deliberately unrelated to the
+    (symbolic) target-time grid the harnesses use: code that derives a step from config.dt instead of the
+    grid then fails a semantic clause rather than an AttributeError in the stub."""
+    base = dict(
+        dt=7.0,
+        max_krylov_dim=100,
+        krylov_tolerance=1e-8,
+        gpu=False,
+        interaction_cutoff=0.0,
+        log_level=20,
+        log_file=None,
+        initial_state=None,
+        observables=[],
+        with_modulation=False,
+        noise_model=SimpleNamespace(noise_types=()),
+        n_trajectories=1,
+        interaction_matrix=None,
+        prefer_device_noise_model=False,
+    )
+    base.update(kw)
+    return SimpleNamespace(**base)
